@@ -648,171 +648,4 @@ theorem string_destroys (stat : Bool) : Destroys (strOi stat) (destroyString sta
     simp only [Bool.false_eq_true, if_false, strOi] at own ⊢
     exact bufDestroy_spec (some b) s wf (by simpa [ownedBufOpt] using own)
 
-/-! ### `encoder_encode_tree` and its caller -/
-
-/-- What `encoder_encode_tree` needs from `wbxml_strtbl_initialize` (which has *inessential*
-    allocations: a failed `wbxml_list_append` while collecting only loses the sharing of a string,
-    so no "a failure is reported" clause). -/
-def InitClean (texts : List ABuf) : Prop :=
-  ∀ (e : AEnc) (s : Ledger), s.WF → Owns s e.owned → (∃ o, e.output = some o ∧ o.ok) →
-    Good (strtblInitialize e texts) s (fun r s' =>
-      EncStep e s r.1 s' ∧ r.1.output.isSome ∧
-      (∀ l, r.1.strstbl = some l → ∀ x ∈ l.items, x.string.hdr ∈ s'.live ∧ x.string.hdr ∉ ownedBufOpt r.1.output))
-
-theorem encodeTree_spec (texts : List ABuf) (body : List Bytes) (e : AEnc) (s : Ledger) (wf : s.WF)
-    (own : Owns s e.owned) (hout : e.output = none)
-    (hinit : e.useStrtbl = true → InitClean texts)
-    (htbl : ∀ l, e.strstbl = some l → l.items = []) :
-    Good (encodeTree e texts body) s (fun r s' =>
-      EncStep e s r.1 s' ∧
-      (∀ l, r.1.strstbl = some l → ∀ x ∈ l.items, x.string.hdr ∈ s'.live ∧ x.string.hdr ∉ ownedBufOpt r.1.output) ∧
-      (e.useStrtbl = false → s.hits < s'.hits → r.2 ≠ OK)) := by
-  unfold encodeTree
-  simp only [bind_eq, pure_eq]
-  refine Good.bind (encInitOutput_spec e s wf own (by simp [hout])) ?_
-  intro r s1 ⟨st1, et1, el1, h1, ho1⟩
-  obtain ⟨e1, ok⟩ := r
-  obtain ⟨eh1, c1, ok1, u1⟩ := st1
-  simp only at eh1 c1 ok1 u1 et1 el1 h1 ho1 ⊢
-  have hn1 := c1.next; have hh1' := c1.hits
-  have htbl1 : ∀ l, e1.strstbl = some l → ∀ x ∈ l.items, x.string.hdr ∈ s1.live ∧ x.string.hdr ∉ ownedBufOpt e1.output := by
-    intro l hl x hx; rw [et1] at hl; rw [htbl l hl] at hx; simp at hx
-  cases ok with
-  | false =>
-    simp only [Bool.not_false, if_true, good_ret]
-    exact ⟨⟨eh1, c1, ok1, u1⟩, htbl1, fun _ _ => by simp [ENOMEM, OK]⟩
-  | true =>
-    simp only [Bool.not_true, Bool.false_eq_true, if_false]
-    have hh1 : ¬ s.hits < s1.hits := by intro hh; have := h1 hh; simp at this
-    have own1 : Owns s1 e1.owned := c1.owns
-    obtain ⟨o1, ho1'⟩ : ∃ o, e1.output = some o := by
-      have := ho1 rfl; cases h : e1.output <;> simp_all
-    have hout1 : ∃ o, e1.output = some o ∧ o.ok := ⟨o1, ho1', ok1 o1 ho1'⟩
-    -- the optional string-table initialisation
-    have hstep : Good (if e1.useStrtbl = true then strtblInitialize e1 texts else Prog.ret (e1, OK)) s1 (fun r s' =>
-        EncStep e1 s1 r.1 s' ∧ r.1.output.isSome ∧
-        (∀ l, r.1.strstbl = some l → ∀ x ∈ l.items, x.string.hdr ∈ s'.live ∧ x.string.hdr ∉ ownedBufOpt r.1.output) ∧
-        (e.useStrtbl = false → s' = s1 ∧ r = (e1, OK))) := by
-      by_cases hu : e1.useStrtbl = true
-      · simp only [hu, if_true]
-        refine (hinit (by rw [← u1]; exact hu) e1 s1 c1.wf own1 hout1).mono ?_
-        intro r s' ⟨a, b, c⟩
-        exact ⟨a, b, c, fun hf => by rw [← u1, hu] at hf; simp at hf⟩
-      · simp only [hu, Bool.false_eq_true, if_false, good_ret]
-        exact ⟨⟨by simp, Clean.id c1.wf own1, ok1, by simp⟩, by simp [ho1'], htbl1, fun _ => ⟨by simp, by simp⟩⟩
-    refine Good.bind hstep ?_
-    intro r2 s2 ⟨st2, ho2, hs2, hno2⟩
-    obtain ⟨e2, ret2⟩ := r2
-    obtain ⟨eh2, c2, ok2, u2⟩ := st2
-    simp only at eh2 c2 ok2 u2 ho2 hs2 hno2 ⊢
-    have c12 := Clean.trans_recycle wf c1 c2
-    by_cases hret : ret2 = OK
-    · subst hret
-      simp only [bne_self_eq_false, Bool.false_eq_true, if_false]
-      have own2 : Owns s2 e2.owned := c2.owns
-      obtain ⟨o2, ho2'⟩ : ∃ o, e2.output = some o := by cases h : e2.output <;> simp_all
-      refine (encodeBody_spec body e2 s2 c2.wf own2 ⟨o2, ho2', ok2 o2 ho2'⟩).mono ?_
-      intro r3 s3 ⟨⟨eh3, c3, ok3, u3⟩, et3, el3, ho3, h3, kp3⟩
-      refine ⟨⟨eh3.trans (eh2.trans eh1), Clean.trans_recycle wf c12 c3, ok3, u3.trans (u2.trans u1)⟩, ?_, ?_⟩
-      · intro l hl x hx
-        rw [et3] at hl
-        have ⟨hx2, hn2⟩ := hs2 l hl x hx
-        exact kp3 _ hx2 hn2
-      · intro hf hh
-        obtain ⟨es, er⟩ := hno2 hf
-        subst es
-        exact h3 (by omega)
-    · have hb : (ret2 != OK) = true := by simpa using hret
-      simp only [hb, if_true, good_ret]
-      refine ⟨⟨eh2.trans eh1, c12, ok2, u2.trans u1⟩, hs2, ?_⟩
-      intro hf _
-      obtain ⟨_, er⟩ := hno2 hf
-      have : ret2 = OK := by simpa using congrArg Prod.snd er
-      exact (hret this).elim
-
-/-- `wbxml_tree_to_wbxml`: create the encoder, `encoder_encode_tree`, `wbxml_build_result`, destroy
-    the encoder — once, whatever happened. -/
-theorem treeToWbxml_spec (useStrtbl : Bool) (texts : List ABuf) (body : List Bytes) (version publicId : Nat)
-    (hinit : useStrtbl = true → InitClean texts) (s : Ledger) (wf : s.WF) :
-    Good (treeToWbxml useStrtbl texts body version publicId) s (fun r s' =>
-      Clean s s' [] (ownedResult r.2) ∧ (r.1 ≠ OK → r.2 = none) ∧
-      (useStrtbl = false → s.hits < s'.hits → r.1 ≠ OK)) := by
-  unfold treeToWbxml
-  simp only [bind_eq, pure_eq]
-  refine Good.bind (encCreate_spec s wf) ?_
-  intro e s1 ⟨c1, h1, k1⟩
-  have hn1 := c1.next; have hh1 := c1.hits
-  cases e with
-  | none => simp only [good_ret, ownedResult]; exact ⟨by simpa [ownedEncOpt] using c1, by simp, fun _ _ => by simp [ENOMEM, OK]⟩
-  | some e0 =>
-    simp only
-    obtain ⟨ho0, l0, hl0, hc0⟩ := k1 e0 rfl
-    have hhh1 : ¬ s.hits < s1.hits := by intro hh; have := h1 hh; simp at this
-    -- the encoder with the caller's setting
-    have hownE : ({ e0 with useStrtbl := useStrtbl } : AEnc).owned = e0.owned := by
-      simp [AEnc.owned_eq]
-    have own1 : Owns s1 ({ e0 with useStrtbl := useStrtbl } : AEnc).owned := by
-      rw [hownE]; simpa [ownedEncOpt] using c1.owns
-    have hfE : ∀ i ∈ e0.owned, s.next < i ∧ i ≤ s1.next := by
-      intro i hi; have := c1.fresh i (by simpa [ownedEncOpt] using hi); simpa using this
-    refine Good.bind (encodeTree_spec texts body { e0 with useStrtbl := useStrtbl } s1 c1.wf own1 (by simpa using ho0)
-      (fun hu => hinit (by simpa using hu)) (by intro l hl; simp only at hl; rw [hl0] at hl; cases hl; simp [AList.items, hc0])) ?_
-    intro r2 s2 ⟨⟨eh2, c2, ok2, u2⟩, hs2, h2⟩
-    obtain ⟨e2, ret⟩ := r2
-    simp only at eh2 c2 ok2 u2 hs2 h2 ⊢
-    rw [hownE] at c2
-    have hn2 := c2.next; have hh2 := c2.hits
-    have own2 : Owns s2 e2.owned := c2.owns
-    have hfE2 : ∀ i ∈ e2.owned, s.next < i ∧ i ≤ s2.next := by
-      intro i hi
-      rcases c2.fresh i hi with h | h
-      · have := hfE i h; omega
-      · omega
-    -- destroying the encoder gives back the state before the call (plus `extra`)
-    have hdestroy : ∀ (s3 : Ledger) (extra : List Nat), s3.WF → Owns s3 e2.owned →
-        (∀ i, i ∈ s3.live ↔ i ∈ s2.live ∨ i ∈ extra) → (∀ i ∈ extra, s2.next < i) →
-        Good (encDestroy (some e2)) s3 (fun _ s4 =>
-          (∀ i, i ∈ s4.live ↔ i ∈ s.live ∨ i ∈ extra) ∧ s4.sched = s3.sched ∧ s4.next = s3.next ∧ s4.hits = s3.hits ∧ s4.WF) := by
-      intro s3 extra wf3 own3 hl3 hex
-      refine (encDestroy_spec (some e2) s3 wf3 (by simpa [ownedEncOpt] using own3)).mono ?_
-      intro _ s4 ⟨c4, h4, n4⟩
-      refine ⟨?_, c4.sched, n4, h4, c4.wf⟩
-      intro i
-      rw [c4.live, hl3, c2.live, c1.live]
-      have a1 := hfE i; have a2 := hfE2 i; have a3 := wf i; have a4 := hex i
-      simp only [ownedEncOpt, List.not_mem_nil, not_false_eq_true, and_true, or_false]
-      clear c1 c2 c4 own1 own2 own3 hfE hfE2 hl3 hex hs2
-      grind
-    by_cases hret : ret = OK
-    · subst hret
-      simp only [bne_self_eq_false, Bool.false_eq_true, if_false]
-      have hl2 : e2.hdr ∈ s2.live := own2.2 _ (by simp [AEnc.owned])
-      have hout2 : ∀ o, e2.output = some o → o.hdr ∈ s2.live ∧ o.ok := by
-        intro o ho
-        exact ⟨own2.2 _ (by simp [AEnc.owned_eq, ho, ownedBufOpt, ABuf.owned]), ok2 o ho⟩
-      refine Good.bind (buildResult_spec e2 version publicId s2 c2.wf hl2 hout2 (fun l hl x hx => (hs2 l hl x hx).1)) ?_
-      intro r3 s3 ⟨c3, e3, h3⟩
-      obtain ⟨ret3, out⟩ := r3
-      simp only at c3 e3 h3 ⊢
-      have hn3 := c3.next; have hh3 := c3.hits
-      have own3 : Owns s3 e2.owned := c3.keeps own2 (by simp)
-      refine Good.bind (hdestroy s3 (ownedResult out) c3.wf own3 (by intro i; rw [c3.live]; simp)
-        (by intro i hi; have := c3.fresh i hi; simp at this; omega)) ?_
-      intro _ s4 ⟨l4, sc4, n4, hh4, wf4⟩
-      simp only [good_ret]
-      refine ⟨⟨by intro i; rw [l4]; simp, ?_, c3.nodup, by rw [sc4, c3.sched, c2.sched, c1.sched], by omega, by omega, wf4⟩, e3, ?_⟩
-      · intro i hi; have := c3.fresh i hi; simp at this; exact Or.inr ⟨by omega, by omega⟩
-      · intro hf hh
-        by_cases hA : s2.hits < s3.hits
-        · exact h3 hA
-        · exfalso
-          have := h2 (by simpa using hf) (by omega)
-          exact this rfl
-    · have hb : (ret != OK) = true := by simpa using hret
-      simp only [hb, if_true]
-      refine Good.bind (hdestroy s2 [] c2.wf own2 (by simp) (by simp)) ?_
-      intro _ s4 ⟨l4, sc4, n4, hh4, wf4⟩
-      simp only [good_ret, ownedResult]
-      exact ⟨⟨by intro i; rw [l4]; simp, by simp, by simp, by rw [sc4, c2.sched, c1.sched], by omega, by omega, wf4⟩, by simp, fun _ _ => hret⟩
-
 end Wbxml.Model.Alloc
